@@ -118,19 +118,45 @@ func wantHash(seed int64, idx int, size string) string {
 
 func strip(err error, dir string) string { return strings.ReplaceAll(err.Error(), dir, "<dir>") }
 
+// layout prepares how the store file is reached before the first save: directly (the usual case), through a
+// data.json that is a symbolic link to a file elsewhere (not there yet), or through a store directory that is
+// itself a symbolic link. The statement speaks of "the job store file on disk": what a reader finds at the path.
+func layout(rt *rapid.T, dir string) (string, string) {
+	switch rapid.SampledFrom([]string{"plain", "plain", "plain", "linked-file", "linked-dir"}).Draw(rt, "layout") {
+	case "linked-file":
+		if err := os.MkdirAll(filepath.Join(dir, "volume"), 0o777); err != nil {
+			rt.Fatalf("mkdir: %v", err)
+		}
+		if err := os.Symlink(filepath.Join(dir, "volume", "data.json"), filepath.Join(dir, "data.json")); err != nil {
+			rt.Fatalf("symlink: %v", err)
+		}
+		return dir, "linked-file"
+	case "linked-dir":
+		if err := os.MkdirAll(filepath.Join(dir, "volume"), 0o777); err != nil {
+			rt.Fatalf("mkdir: %v", err)
+		}
+		if err := os.Symlink(filepath.Join(dir, "volume"), filepath.Join(dir, "data")); err != nil {
+			rt.Fatalf("symlink: %v", err)
+		}
+		return filepath.Join(dir, "data"), "linked-dir"
+	}
+	return dir, "plain"
+}
+
 var sizeGen = rapid.SampledFrom([]string{"tiny", "small", "small", "medium", "medium", "medium", "large", "large", "huge"})
 
 // TestC09Readers: readers racing a sequence of saves only ever see complete snapshots.
 func TestC09Readers(t *testing.T) {
-	col := ev.Get("C09", "readers", "a saver goroutine (in 30% of the cases two concurrent savers) saves a generated sequence of 3-12 snapshots (size classes from 1 job to ~1500 jobs / several MB) with the real JsonDataStore while 2-6 reader goroutines alternate raw os.ReadFile+encoding/json and JsonDataStore.Load; every observation must be 'absent' (only before the first save returned) or decode completely to exactly one snapshot passed to Save (index + content hash), with index >= last save that had returned before the observation began and <= last save started; after the sequence Load returns exactly the last snapshot; non-trivial = an observation that overlapped a save in progress; distinct by (seed,size,observation count)")
+	col := ev.Get("C09", "readers", "a saver goroutine (in 30% of the cases two concurrent savers) saves a generated sequence of 3-12 snapshots (size classes from 1 job to ~1500 jobs / several MB) with the real JsonDataStore (store file reached directly, through a data.json that is a symbolic link to a file elsewhere, or through a symlinked store directory) while 2-6 reader goroutines alternate raw os.ReadFile+encoding/json and JsonDataStore.Load; every observation must be 'absent' (only before the first save returned) or decode completely to exactly one snapshot passed to Save (index + content hash), with index >= last save that had returned before the observation began and <= last save started; after the sequence Load returns exactly the last snapshot; non-trivial = an observation that overlapped a save in progress; distinct by (seed,size,observation count)")
 	rapid.Check(t, func(rt *rapid.T) {
 		seed := rapid.Int64Range(1, 1<<40).Draw(rt, "seed")
 		size := sizeGen.Draw(rt, "size")
 		count := rapid.IntRange(3, 12).Draw(rt, "count")
 		nReaders := rapid.IntRange(2, 6).Draw(rt, "readers")
 		twoSavers := rapid.IntRange(0, 9).Draw(rt, "twoSavers") >= 7
-		dir := workDir(rt)
-		defer os.RemoveAll(dir)
+		top := workDir(rt)
+		defer os.RemoveAll(top)
+		dir, lay := layout(rt, top)
 		st, err := store.NewJSONDataStore(dir)
 		if err != nil {
 			rt.Fatalf("NewJSONDataStore: %v", err)
@@ -220,8 +246,8 @@ func TestC09Readers(t *testing.T) {
 				rt.Fatalf("after the save of snapshot %d returned, the next load returns snapshot %d", count-1, idx)
 			}
 		}
-		col.Add(fmt.Sprintf("%d/%s/%d/%d", seed, size, count, observations), overlapping > 0, map[string]int{"size:" + size: 1, "overlapping-observation": btoi(overlapping > 0), "two-concurrent-savers": btoi(twoSavers)}, int(observations),
-			map[string]interface{}{"seed": seed, "size": size, "saves": count, "readers": nReaders, "observations": observations, "overlapping_a_save": overlapping})
+		col.Add(fmt.Sprintf("%d/%s/%d/%d/%s", seed, size, count, observations, lay), overlapping > 0, map[string]int{"size:" + size: 1, "overlapping-observation": btoi(overlapping > 0), "two-concurrent-savers": btoi(twoSavers), "layout:" + lay: 1}, int(observations),
+			map[string]interface{}{"seed": seed, "size": size, "layout": lay, "saves": count, "readers": nReaders, "observations": observations, "overlapping_a_save": overlapping})
 	})
 }
 
@@ -278,7 +304,7 @@ func calibrate() {
 
 // TestC09Kill: a saving process killed at an arbitrary instant leaves a complete snapshot behind.
 func TestC09Kill(t *testing.T) {
-	col := ev.Get("C09", "kill", "a child process (vhelper saver) saves a generated sequence with the real JsonDataStore and reports begin i / end i on a pipe; the parent sends SIGKILL at a generated instant (after 'begin k' plus a delay drawn from the measured save duration of that size class); afterwards a raw read and Load in the parent must yield 'absent' only if no save had ended, else a complete snapshot with index in [last end reported, last begin reported] and matching content hash; in 7 of 10 cases a second run then saves 1-3 snapshots of another size class into the same directory (with whatever the killed run left there) and the store must hold exactly its last snapshot; non-trivial = the kill fell between a begin and its end; distinct by (seed,size,kill point)")
+	col := ev.Get("C09", "kill", "a child process (vhelper saver) saves a generated sequence with the real JsonDataStore (store file reached directly, through a symlinked data.json or a symlinked directory) and reports begin i / end i on a pipe; the parent sends SIGKILL at a generated instant (after 'begin k' plus a delay drawn from the measured save duration of that size class); afterwards a raw read and Load in the parent must yield 'absent' only if no save had ended, else a complete snapshot with index in [last end reported, last begin reported] and matching content hash; in 7 of 10 cases a second run then saves 1-3 snapshots of another size class into the same directory (with whatever the killed run left there) and the store must hold exactly its last snapshot; non-trivial = the kill fell between a begin and its end; distinct by (seed,size,kill point)")
 	helper := helperPath(t)
 	calibrate()
 	rapid.Check(t, func(rt *rapid.T) {
@@ -287,8 +313,9 @@ func TestC09Kill(t *testing.T) {
 		count := rapid.IntRange(2, 10).Draw(rt, "count")
 		k := rapid.IntRange(0, count-1).Draw(rt, "killAfterBegin")
 		frac := rapid.IntRange(0, 120).Draw(rt, "delayPercentOfSave")
-		dir := workDir(rt)
-		defer os.RemoveAll(dir)
+		top := workDir(rt)
+		defer os.RemoveAll(top)
+		dir, lay := layout(rt, top)
 		cmd := exec.Command(helper, "saver", dir, strconv.FormatInt(seed, 10), strconv.Itoa(count), size)
 		out, err := cmd.StdoutPipe()
 		if err != nil {
@@ -372,8 +399,8 @@ func TestC09Kill(t *testing.T) {
 				}
 			}
 		}
-		col.Add(fmt.Sprintf("%d/%s/%d/%d/%d/%v", seed, size, count, k, frac, secondRun), inside, map[string]int{"size:" + size: 1, "killed-inside-a-save": btoi(inside), "killed-between-saves": btoi(!inside), "second-run-after-kill": btoi(secondRun)}, 1,
-			map[string]interface{}{"seed": seed, "size": size, "saves": count, "kill_after_begin": k, "delay_percent_of_save": frac, "last_begin": lastBegin, "last_end": lastEnd})
+		col.Add(fmt.Sprintf("%d/%s/%d/%d/%d/%v/%s", seed, size, count, k, frac, secondRun, lay), inside, map[string]int{"size:" + size: 1, "killed-inside-a-save": btoi(inside), "killed-between-saves": btoi(!inside), "second-run-after-kill": btoi(secondRun), "layout:" + lay: 1}, 1,
+			map[string]interface{}{"seed": seed, "size": size, "layout": lay, "saves": count, "kill_after_begin": k, "delay_percent_of_save": frac, "last_begin": lastBegin, "last_end": lastEnd})
 	})
 }
 
@@ -399,6 +426,10 @@ func TestC09Faults(t *testing.T) {
 		defer os.RemoveAll(dir)
 		report := filepath.Join(dir, "report.log")
 		storeDir := filepath.Join(dir, "s")
+		if err := os.MkdirAll(storeDir, 0o777); err != nil {
+			rt.Fatalf("mkdir: %v", err)
+		}
+		storeDir, lay := layout(rt, storeDir)
 		args := []string{"-f", "-qq", "-o", "/dev/null", "-e", "trace=" + sc, "-e", fmt.Sprintf("inject=%s:error=%s:when=%d%s", sc, errno, when, step),
 			helper, "saver", storeDir, strconv.FormatInt(seed, 10), strconv.Itoa(count), size, "--report", report}
 		cmd := exec.Command(strace, args...)
@@ -443,7 +474,7 @@ func TestC09Faults(t *testing.T) {
 				rt.Fatalf("after the child ended the store holds snapshot %d, the last successful save was %d", idx, lastOK)
 			}
 		}
-		col.Add(fmt.Sprintf("%s/%s/%d%s/%s/%d", sc, errno, when, step, size, seed), failed > 0, map[string]int{"syscall:" + sc: 1, "errno:" + errno: 1, "a-save-failed": btoi(failed > 0)}, 1,
-			map[string]interface{}{"inject": fmt.Sprintf("%s:error=%s:when=%d%s", sc, errno, when, step), "size": size, "saves": count, "failed_saves": failed, "last_successful": lastOK})
+		col.Add(fmt.Sprintf("%s/%s/%d%s/%s/%d/%s", sc, errno, when, step, size, seed, lay), failed > 0, map[string]int{"syscall:" + sc: 1, "errno:" + errno: 1, "a-save-failed": btoi(failed > 0), "layout:" + lay: 1}, 1,
+			map[string]interface{}{"layout": lay, "inject": fmt.Sprintf("%s:error=%s:when=%d%s", sc, errno, when, step), "size": size, "saves": count, "failed_saves": failed, "last_successful": lastOK})
 	})
 }
